@@ -166,13 +166,12 @@ package abi
 // hold (compared without wrap), allocates in proportion to the data, and decodes section a from offset 16+32a.
 //@ func TDXMetadataFromBytes
 //@   assigns nothing
-//@   modifies rdLeft, brSrc
 //@   sweep[C08,C18]
 //@   alloc 64 * len(data) + 1024
 //@   ghostparam a Int
 //@   ensures[C18] len(data) < 16 ==> err != nil
 //@   ensures[C18] err == nil <==> len(data) >= 16 && 32 * le32(data, 12) <= len(data) - 16
-//@   ensures[C18] err == nil ==> result0 != nil && fresh(result0) && result0.Header != nil && fresh(result0.Header) && len(result0.Sections) == le32(data, 12)
+//@   ensures[C18] err == nil ==> result0 != nil && fresh(result0) && result0.Header != nil && fresh(result0.Header) && len(result0.Sections) == le32(data, 12) && (ref(result0.Sections) == 0 || fresh(result0.Sections))
 //@   ensures[C18] err == nil ==> result0.Header.Signature == le32(data, 0) && result0.Header.Length == le32(data, 4) && result0.Header.Version == le32(data, 8) && result0.Header.SectionCount == le32(data, 12)
 //@   ensures[C18] err == nil && 0 <= a && a < len(result0.Sections) ==> result0.Sections[a] != nil && fresh(result0.Sections[a])
 //@   ensures[C18] err == nil && 0 <= a && a < len(result0.Sections) ==> result0.Sections[a].DataOffset == le32(data, 16+32*a) && result0.Sections[a].DataSize == le32(data, 20+32*a) && result0.Sections[a].MemoryBase == le64(data, 24+32*a) && result0.Sections[a].MemorySize == le64(data, 32+32*a) && result0.Sections[a].SectionType == le32(data, 40+32*a) && result0.Sections[a].Attributes == le32(data, 44+32*a)
@@ -183,6 +182,7 @@ package abi
 //@   loop 1 invariant 0 <= a && a < i ==> sections[a].MemoryBase == le64(data, 24+32*a)
 //@   loop 1 invariant 0 <= a && a < i ==> sections[a].MemorySize == le64(data, 32+32*a)
 //@   loop 1 invariant 0 <= a && a < i ==> sections[a].SectionType == le32(data, 40+32*a) && sections[a].Attributes == le32(data, 44+32*a)
+//@   loop 1 invariant forall(r, Int, !fresh(r) ==> rdLeft[r] == old(rdLeft)[r] && same(brSrc[r], old(brSrc)[r]))
 //@   loop 1 decreases[C08] hdr.SectionCount - i
 
 //@ func (*TDXMetadata).Size
@@ -209,3 +209,71 @@ package abi
 //@   loop 1 invariant 0 <= a && a < i ==> le32(data, 16+32*a) == m.Sections[a].DataOffset && le32(data, 20+32*a) == m.Sections[a].DataSize && le64(data, 24+32*a) == m.Sections[a].MemoryBase && le64(data, 32+32*a) == m.Sections[a].MemorySize && le32(data, 40+32*a) == m.Sections[a].SectionType && le32(data, 44+32*a) == m.Sections[a].Attributes
 //@   loop 1 invariant 16 + 32 * i <= a && a < len(data) ==> bytesAt(data, a) == old(bytesAt(data, a))
 //@   loop 1 decreases[C08] m.Header.SectionCount - i
+
+// PI hand-off blocks (PI spec vol. 3): generic header = u16 type, u16 length, u32 reserved (0); 8 bytes. What is
+// written is described through the writer's ghost log (wrLen/wrLog, /verif/stubs/io.spec).
+//@ func EFIHOBGenericHeader.WriteTo
+//@   assigns nothing
+//@   modifies wrLen, wrLog
+//@   sweep[C08,C18] nil index slice div typeassert panic makeslice nilmap
+//@   ensures[C18] err == nil ==> result0 == 8 && wrLen[ref(w)] == old(wrLen)[ref(w)] + 8 && hobHdrAt(wrLog[ref(w)], old(wrLen)[ref(w)], h.HobType, h.HobLength)
+//@   ensures[C18] err == nil ==> forall(j, j < old(wrLen)[ref(w)] ==> wrLog[ref(w)][j] == old(wrLog)[ref(w)][j])
+//@   ensures[C18] forall(r, Int, r != ref(w) ==> wrLen[r] == old(wrLen)[r] && wrLog[r] == old(wrLog)[r])
+
+// PHIT HOB: header, u32 version, u32 boot mode, five u64 addresses; 56 bytes.
+//@ func EFIHOBHandoffInfoTable.WriteTo
+//@   assigns nothing
+//@   modifies wrLen, wrLog
+//@   sweep[C08,C18] nil index slice div typeassert panic makeslice nilmap
+//@   ensures[C18] err == nil ==> result0 == 56 && wrLen[ref(w)] == old(wrLen)[ref(w)] + 56 && hobHdrAt(wrLog[ref(w)], old(wrLen)[ref(w)], t.Header.HobType, t.Header.HobLength)
+//@   ensures[C18] err == nil ==> lg32(wrLog[ref(w)], old(wrLen)[ref(w)] + 8) == t.Version && lg32(wrLog[ref(w)], old(wrLen)[ref(w)] + 12) == t.BootMode
+//@   ensures[C18] err == nil ==> lg64(wrLog[ref(w)], old(wrLen)[ref(w)] + 16) == t.EfiMemoryTop && lg64(wrLog[ref(w)], old(wrLen)[ref(w)] + 24) == t.EfiMemoryBottom && lg64(wrLog[ref(w)], old(wrLen)[ref(w)] + 32) == t.EfiFreeMemoryTop
+//@   ensures[C18] err == nil ==> lg64(wrLog[ref(w)], old(wrLen)[ref(w)] + 40) == t.EfiFreeMemoryBottom && lg64(wrLog[ref(w)], old(wrLen)[ref(w)] + 48) == t.EfiEndOfHobList
+//@   ensures[C18] err == nil ==> forall(j, j < old(wrLen)[ref(w)] ==> wrLog[ref(w)][j] == old(wrLog)[ref(w)][j])
+//@   ensures[C18] forall(r, Int, r != ref(w) ==> wrLen[r] == old(wrLen)[r] && wrLog[r] == old(wrLog)[r])
+
+// Resource descriptor HOB: header, owner EFI GUID, u32 type, u32 attributes, u64 start, u64 length; 48 bytes.
+//@ func EFIHOBResourceDescriptor.WriteTo
+//@   assigns nothing
+//@   modifies wrLen, wrLog
+//@   sweep[C08,C18] nil index slice div typeassert panic makeslice nilmap
+//@   ensures[C18] err == nil ==> result0 == 48 && wrLen[ref(w)] == old(wrLen)[ref(w)] + 48 && hobHdrAt(wrLog[ref(w)], old(wrLen)[ref(w)], d.Header.HobType, d.Header.HobLength)
+//@   ensures[C18] err == nil ==> lg32(wrLog[ref(w)], old(wrLen)[ref(w)] + 8) == d.Owner.Data1 && lg16(wrLog[ref(w)], old(wrLen)[ref(w)] + 12) == d.Owner.Data2 && lg16(wrLog[ref(w)], old(wrLen)[ref(w)] + 14) == d.Owner.Data3
+//@   ensures[C18] err == nil ==> forall(i, 0 <= i && i < 8 ==> wrLog[ref(w)][old(wrLen)[ref(w)] + 16 + i] == d.Owner.Data4[i])
+//@   ensures[C18] err == nil ==> lg32(wrLog[ref(w)], old(wrLen)[ref(w)] + 24) == d.ResourceType && lg32(wrLog[ref(w)], old(wrLen)[ref(w)] + 28) == d.ResourceAttribute
+//@   ensures[C18] err == nil ==> lg64(wrLog[ref(w)], old(wrLen)[ref(w)] + 32) == d.PhysicalStart && lg64(wrLog[ref(w)], old(wrLen)[ref(w)] + 40) == d.ResourceLength
+//@   ensures[C18] err == nil ==> forall(j, j < old(wrLen)[ref(w)] ==> wrLog[ref(w)][j] == old(wrLog)[ref(w)][j])
+//@   ensures[C18] forall(r, Int, r != ref(w) ==> wrLen[r] == old(wrLen)[r] && wrLog[r] == old(wrLog)[r])
+
+//@ func sizedWrite
+//@   assigns nothing
+//@   modifies wrLen, wrLog
+//@   sweep[C08,C18] nil index slice div typeassert panic makeslice nilmap
+//@   ensures[C18] err == nil ==> result0 == want && result0 == len(data) && wrLen[ref(w)] == old(wrLen)[ref(w)] + len(data)
+//@   ensures[C18] err == nil ==> forall(k, 0 <= k && k < len(data) ==> wrLog[ref(w)][old(wrLen)[ref(w)] + k] == bytesAt(data, k))
+//@   ensures[C18] err == nil ==> forall(j, j < old(wrLen)[ref(w)] ==> wrLog[ref(w)][j] == old(wrLog)[ref(w)][j])
+//@   ensures[C18] forall(r, Int, r != ref(w) ==> wrLen[r] == old(wrLen)[r] && wrLog[r] == old(wrLog)[r])
+
+// GUID extension HOB: header (type 4, length 24 + len(data)), EFI GUID, data; refused unless the header is consistent.
+//@ func EFIHOBGUID.WriteTo
+//@   assigns nothing
+//@   modifies wrLen, wrLog
+//@   sweep[C08,C18] nil index slice div typeassert panic makeslice nilmap
+//@   ensures[C18] err == nil ==> h.Header.HobType == 4 && h.Header.HobLength == 24 + len(h.Data) && result0 == h.Header.HobLength
+//@   ensures[C18] err == nil ==> wrLen[ref(w)] == old(wrLen)[ref(w)] + 24 + len(h.Data) && hobHdrAt(wrLog[ref(w)], old(wrLen)[ref(w)], 4, 24 + len(h.Data))
+//@   ensures[C18] err == nil ==> lg32(wrLog[ref(w)], old(wrLen)[ref(w)] + 8) == h.GUID.Data1 && lg16(wrLog[ref(w)], old(wrLen)[ref(w)] + 12) == h.GUID.Data2 && lg16(wrLog[ref(w)], old(wrLen)[ref(w)] + 14) == h.GUID.Data3
+//@   ensures[C18] err == nil ==> forall(i, 0 <= i && i < 8 ==> wrLog[ref(w)][old(wrLen)[ref(w)] + 16 + i] == h.GUID.Data4[i])
+//@   ensures[C18] err == nil ==> forall(k, 0 <= k && k < len(h.Data) ==> wrLog[ref(w)][old(wrLen)[ref(w)] + 24 + k] == bytesAt(h.Data, k))
+
+// CreateEFIHOBGUID pads the data with zeros to a multiple of 8 and builds a header whose length field is the real
+// length of the HOB (so it must fit 16 bits).
+// (The padding is appended in place when the caller's slice has spare capacity.)
+//@ func CreateEFIHOBGUID
+//@   assigns data[*cap]
+//@   sweep[C08,C18]
+//@   alloc 4 * len(data) + 64
+//@   ensures[C18] err == nil ==> result0.Header.HobType == 4 && len(result0.Data) % 8 == 0 && len(result0.Data) >= len(data) && len(result0.Data) < len(data) + 8
+//@   ensures[C18] err == nil ==> result0.Header.HobLength == 24 + len(result0.Data)
+//@   ensures[C18] err == nil ==> forall(k, 0 <= k && k < len(data) ==> bytesAt(result0.Data, k) == old(bytesAt(data, k)))
+//@   ensures[C18] err == nil ==> forall(k, len(data) <= k && k < len(result0.Data) ==> bytesAt(result0.Data, k) == 0)
+//@   ensures[C18] err == nil ==> be32(guid, 0) == result0.GUID.Data1 && be16(guid, 4) == result0.GUID.Data2 && be16(guid, 6) == result0.GUID.Data3 && forall(i, 0 <= i && i < 8 ==> result0.GUID.Data4[i] == guid[8+i])
